@@ -336,6 +336,15 @@ def inline_single_use_temporaries(tree):
     return tree
 
 
+def mod_level_literals(tree):
+    """module-level names bound (once, at top level) to a str/bytes literal"""
+    out = {}
+    for st in tree.body:
+        if isinstance(st, ast.Assign) and len(st.targets) == 1 and isinstance(st.targets[0], ast.Name) and isinstance(st.value, ast.Constant) and isinstance(st.value.value, (str, bytes)):
+            out[st.targets[0].id] = st.value
+    return out
+
+
 def set_parents(tree):
     for node in ast.walk(tree):
         for child in ast.iter_child_nodes(node):
@@ -394,12 +403,50 @@ class Program:
             self.modules[modname] = mod
         self.digest = h.hexdigest()
         self._inline_explaining_constants()
+        self._inline_precompiled_structs()
         from .inline import inline_new_helpers
         self.read_through = inline_new_helpers({name: mod.tree for name, mod in self.modules.items()})
         for mod in self.modules.values():
             set_parents(mod.tree)
         for mod in self.modules.values():
             self._index_module(mod)
+
+    def _inline_precompiled_structs(self):
+        """Normal form: a module-level `S = struct.Struct(<format literal>)` bound once is the format with the struct functions applied to it:
+        `S.pack(a, b)` is `struct.pack(fmt, a, b)`, likewise unpack / unpack_from / pack_into / iter_unpack, and `S.size` is `struct.calcsize(fmt)` (same module only)."""
+        for mod in self.modules.values():
+            structs = {}
+            stores = {}
+            for n in ast.walk(mod.tree):
+                if isinstance(n, ast.Name) and isinstance(n.ctx, (ast.Store, ast.Del)):
+                    stores[n.id] = stores.get(n.id, 0) + 1
+            for st in mod.tree.body:
+                if isinstance(st, ast.Assign) and len(st.targets) == 1 and isinstance(st.targets[0], ast.Name) and isinstance(st.value, ast.Call) \
+                        and dotted(st.value.func) in ("struct.Struct", "Struct") and len(st.value.args) == 1 and not st.value.keywords:
+                    fmt = st.value.args[0]
+                    named = isinstance(fmt, ast.Name) and fmt.id in mod_level_literals(mod.tree) and stores.get(fmt.id) == 1      # the format constant keeps its name
+                    if (named or (isinstance(fmt, ast.Constant) and isinstance(fmt.value, (str, bytes)))) and stores.get(st.targets[0].id) == 1:
+                        structs[st.targets[0].id] = fmt
+            if not structs:
+                continue
+            import copy
+
+            class T(ast.NodeTransformer):
+                def visit_Call(self, node):
+                    self.generic_visit(node)
+                    f = node.func
+                    if isinstance(f, ast.Attribute) and isinstance(f.value, ast.Name) and f.value.id in structs and f.attr in ("pack", "unpack", "unpack_from", "pack_into", "iter_unpack"):
+                        node.func = ast.copy_location(ast.Attribute(value=ast.Name(id="struct", ctx=ast.Load()), attr=f.attr, ctx=ast.Load()), f)
+                        node.args = [ast.copy_location(copy.deepcopy(structs[f.value.id]), node)] + node.args
+                    return node
+
+                def visit_Attribute(self, node):
+                    self.generic_visit(node)
+                    if isinstance(node.value, ast.Name) and node.value.id in structs and node.attr == "size" and isinstance(node.ctx, ast.Load):
+                        return ast.copy_location(ast.Call(func=ast.Attribute(value=ast.Name(id="struct", ctx=ast.Load()), attr="calcsize", ctx=ast.Load()),
+                                                          args=[copy.deepcopy(structs[node.value.id])], keywords=[]), node)
+                    return node
+            T().visit(mod.tree)
 
     def _inline_explaining_constants(self):
         """Normal form: a module-level name bound once to an int/str/bytes literal that is not one of the library's own named constants (NAMED_CONSTANTS, the
